@@ -393,6 +393,10 @@ def part_b(spec, out):
     r = gen.rng_for(spec["seed"], "C10B", spec["cls"], spec["piece"])
     nprog = 5 if spec["tier"] == "quick" else 40
     progs = _b_programs(info, r, nprog)
+    if spec["piece"] == 0 and not info.buffered:
+        # directed witness of known finding D18 (kept so that the finding is re-observed on every run)
+        w = ["op", "setitem", ["k", 1], "x"] if info.kind == "dict" else ["op", "append", [1], "x"]
+        progs.insert(0, {"threads": [[["filename"]], [w]], "buffered": False, "repoint_shared_object": True})
     t0 = time.time()
     budget = 30 if spec["tier"] == "quick" else 1500
     c = out["counters"]
